@@ -198,8 +198,9 @@ def build(v, m, tree, lines, route, level, profile):
     return c04.build_api(v, m, tree, lines, level, profile)
 
 
-def _open_ended(v, seg):
-    rows = T.seg_fields(v, seg)
+def _open_ended(v, seg, without=None):
+    """the segment takes fields beyond its table (last field of varying type) - also once the row `without` is removed"""
+    rows = [r for r in T.seg_fields(v, seg) if r[0] != without]
     return bool(rows) and rows[-1][2][2] == 'varies'
 
 
@@ -328,6 +329,11 @@ def check_edit(case, acc=None):
         violated = any(c < n for c, n in zip(counts, site['nrepss']))
     if kind == 'datatype':
         violated = any(site['multis']) and T.is_base(v, newdt)
+    if kind == 'forbid' and site['level'] == 'field' and not _open_ended(v, site['seg']) and _open_ended(v, site['seg'], name):
+        # forbidding the last field uncovers a field of varying type as the new last one: the profile's segment is then
+        # open-ended and the "forbidden" position is a legal extra field - the edit does not say what it was meant to say
+        case['_skipped'] = True
+        return []
     # a segment capped at 1 inside a group makes the group finder open a new group repetition when it recurs: the tree the
     # parser builds is then another (legal) one, so nothing is asserted about that text
     regrouped = kind == 'max1' and site['level'] == 'segment' and bool(site['groups']) and route != 'api'
